@@ -623,7 +623,29 @@ func vfC09Run(t *testing.T, c *vfC09Case) (violation string, trace []string, cla
 				if bothWritesFailed {
 					classes["revocation-unpersistable"] = true
 					if len(after) != 0 {
-						fail("step %d: neither record of a new revocation could be written, yet validation keeps a trust set %s instead of failing closed", si, describe())
+						// known finding: sdns files its RFC 5011 state under the key tag. A configured anchor whose tag slot
+						// is already taken by another key (K4, pending, collides with K0) never enters that state, so its
+						// self-signed revocation is not processed at all - there is nothing to fail closed about in sdns's
+						// books, the anchor merely drops out of the live set, and no record of the revocation is attempted
+						shadowed := len(selfSignedRevocations) > 0
+						for _, m := range selfSignedRevocations {
+							if m != vfC09Material(keys[0].RR) {
+								shadowed = false
+							}
+						}
+						k4 := false
+						for _, i := range pub.Present {
+							if i == 4 {
+								k4 = true
+							}
+						}
+						if shadowed && k4 && vfstat.KnownOpen("C09-revocation-shadowed-by-colliding-tag") {
+							vfstat.Known("C09.anchors", "C09-revocation-shadowed-by-colliding-tag")
+							vfstat.ReportKnown("C09-revocation-shadowed-by-colliding-tag")
+							classes["known-finding:colliding-tag-shadows-revocation"] = true
+						} else {
+							fail("step %d: neither record of a new revocation could be written, yet validation keeps a trust set %s instead of failing closed", si, describe())
+						}
 					}
 				} else {
 					for _, m := range selfSignedRevocations {
@@ -673,6 +695,13 @@ func TestVerifC09Anchors(t *testing.T) {
 	defer vfstat.Flush()
 	vfstat.Quiet()
 	const U = "C09.anchors"
+	// the history of the one listed finding, replayed on every run: while the finding is open it prints its
+	// KNOWN-FINDING line here (and whenever the generator arrives at it again); once repaired it passes silently
+	all := vfC09Pub{Present: []int{0, 1, 4}, Revoked: []int{0}, Signers: []int{0, 1, 4}}
+	if v, trace, _ := vfC09Run(t, &vfC09Case{Steps: []vfC09Step{{Kind: "restart", Config: []int{1}}, {Kind: "refresh", Pub: all}, {Kind: "restart", Config: []int{0}},
+		{Kind: "writefail", Files: "both", Pub: all}}}); v != "" {
+		t.Fatalf("%s\n  history:\n    %s", v, strings.Join(trace, "\n    "))
+	}
 	rapid.Check(t, func(rt *rapid.T) {
 		c := vfC09Gen(rt)
 		v, trace, classes := vfC09Run(t, c)
